@@ -80,6 +80,15 @@ def structural_trees():
         {"p": "r/m1", "k": "tmpfs"}, {"p": "r/m2", "k": "tmpfs"},
         {"p": "r/m1/one", "k": "file", "c": ["base", 20000, 1]}, {"p": "r/m2/one", "k": "file", "c": ["flip", 20000, 1, 15000]},
         {"p": "r/m1/two", "k": "file", "c": ["base", 300, 2]}, {"p": "r/m2/two", "k": "file", "c": ["base", 300, 2]}])
+    # a group that spans two file systems (hard links and clones cannot cross them: `link` and `dedupe` work per
+    # device), next to groups that live on one (skipped when mounting is not permitted)
+    t["cross_device"] = (["r"], [], [
+        {"p": "r/m2", "k": "tmpfs"},
+        {"p": "r/a/x1", "k": "file", "c": ["base", 900, 1]}, {"p": "r/a/x2", "k": "file", "c": ["base", 900, 1]},
+        {"p": "r/m2/x3", "k": "file", "c": ["base", 900, 1]}, {"p": "r/m2/x4", "k": "file", "c": ["base", 900, 1]},
+        {"p": "r/m2/x5", "k": "file", "c": ["base", 900, 1]},
+        {"p": "r/a/y1", "k": "file", "c": ["base", 500, 2]}, {"p": "r/a/y2", "k": "file", "c": ["base", 500, 2]},
+        {"p": "r/m2/z1", "k": "file", "c": ["base", 300, 3]}, {"p": "r/m2/z2", "k": "file", "c": ["base", 300, 3]}])
     # overlapping / repeated input paths given on standard input, every path counted separately (--match-links):
     # a file reached twice is still ONE path - it may not be reported as a duplicate of itself
     t["stdin_overlap"] = (["r1", "r1/d", "r1"], ["-H"], [
@@ -200,6 +209,10 @@ def cases(tier, seed):
     for op in ("remove", "link", "move"):
         for tr in ([], ["--transform", "cat"]):
             out.append({"kind": "cache_race", "op": op, "tr": tr, "tree": "cache_race", "fmt": "default"})
+            # ... and rewritten BETWEEN two cached runs, the new modification time in the same second as the old one
+            # (other milliseconds), one second later, or earlier
+            for shift_ms in (700, 1, 1000, -300):
+                out.append({"kind": "cache_race", "op": op, "tr": tr, "tree": "cache_race", "fmt": "default", "between_ms": shift_ms})
     return out
 
 
@@ -240,11 +253,27 @@ def evaluate_cache_race(case):
         ev = rec["events"]
         touch = [i for i, e in enumerate(ev) if e.path == victim]
         positions = sorted(set(touch + [i + 1 for i in touch if i + 1 < len(ev)]))
+        if case.get("between_ms") is not None:
+            positions = [None]
+            feat = dict(feat, rewritten_during_an_earlier_cached_run=False, rewritten_between_cached_runs_ms=case["between_ms"])
         for n, k in enumerate(positions):
             env = fresh(n + 1)
-            res = S.run_with_shim(sc, gargs, [sc.tree], "r", mode="pause", at=k, env_extra=env, on_pause=rewrite)
-            if not res["paused"]:
-                raise C.MachineryError("group did not pause at event %d" % k)
+            if k is None:
+                t0 = 1_650_000_000_100_000_000          # ...:00.100
+                for q in ("r/a", "r/b"):
+                    os.utime(sc.path(q), ns=(t0, t0))
+                rc0, _, err0, to0 = C.fclones(gargs, sc, env_extra=env)
+                if rc0 != 0:
+                    raise C.MachineryError("first cached run failed: %s" % err0[-300:])
+                rewrite()
+                t1 = t0 + case["between_ms"] * 1_000_000
+                os.utime(victim, ns=(t1, t1))
+                ev = [None]
+                k = 0
+            else:
+                res = S.run_with_shim(sc, gargs, [sc.tree], "r", mode="pause", at=k, env_extra=env, on_pause=rewrite)
+                if not res["paused"]:
+                    raise C.MachineryError("group did not pause at event %d" % k)
             rc, report, err, to = C.fclones(gargs, sc, env_extra=env)
             if rc != 0 or to:
                 raise C.MachineryError("second group run failed: %s" % err[-300:])
@@ -284,7 +313,7 @@ def evaluate(case):
     isolate = "--isolate" in case["gargs"]
     feat = {"op": case["op"], "report_format": case["fmt"], "isolate": isolate, "symbolic_links": symlinks,
             "victim_name_class": name_class(case["entries"][0]["p"].split("/", 1)[1]) if case["tree"].startswith("n:") else "plain"}
-    if case["tree"] == "s:two_tmpfs":
+    if case["tree"] in ("s:two_tmpfs", "s:cross_device"):
         from . import c09
         if not c09.can_mount():
             return {"violations": [], "nontrivial": None, "outcome": "skipped_no_mount"}
